@@ -5,6 +5,7 @@ Oracle: for a generated (project, options, suppressions) case the canonical find
 process executor, with seeded scheduling perturbation (hook H2), equal those of `-j 1`.
 Whole-program ids are compared only when a build dir is used.
 """
+import fnmatch as _fn
 import os
 import shutil
 
@@ -29,7 +30,7 @@ META = {
 
 def _case(ctx, idx):
     rng = ctx.subrng('case', idx)
-    proj = projgen.gen(rng, nfiles=(2, 10 if ctx.quick() else 24), headers=True, ctu=True)
+    proj = projgen.gen(rng, nfiles=(2, 10 if ctx.quick() else 24), headers=True, ctu=True, modehdr=rng.random() < 0.6)
     d = ctx.tmpdir('c%d' % idx)
     src = os.path.join(d, 'src')
     proj.write(src)
@@ -42,7 +43,16 @@ def _case(ctx, idx):
     proj2, inserted = supprgen.add_inline(rng, proj, a0.findings, frac=0.35, unmatched=rng.randint(0, 3))
     shutil.rmtree(src)
     proj2.write(src)
-    opts = base + ['--inline-suppr'] + supprgen.cmdline_set(rng, a0.findings, proj.sources)
+    # exclusion no-double-cover [finding double-cover]: a finding is never covered by an inline suppression *and* a
+    # command-line suppression (workers hide it locally, the parent then reports the global one as unmatched)
+    import re as _re
+    inline_ids = set()
+    for _f, _l, txt in inserted:
+        inline_ids.update(_re.findall(r'[A-Za-z_][A-Za-z_0-9]*', txt.split('cppcheck-suppress', 1)[1]))
+    cand = [f for f in a0.findings if f.id not in inline_ids]
+    cmd = [o for o in supprgen.cmdline_set(rng, cand, proj.sources)
+           if not any(_fn.fnmatchcase(i, o.split('=', 1)[1].split(':')[0]) for i in inline_ids)]
+    opts = base + ['--inline-suppr'] + cmd
     use_bd = rng.random() < 0.5
     njobs = rng.choice([2, 3, 4, 8, 16])
 
@@ -120,7 +130,32 @@ def _case(ctx, idx):
     shutil.rmtree(d, ignore_errors=True)
 
 
+def replay_known(ctx):
+    """known/C24/double-cover (same root cause as the C24 finding): -jN reports a matched global suppression as unmatched"""
+    from ..build import VERIF
+    src = os.path.join(VERIF, 'known', 'C24', 'double-cover')
+    if not os.path.isdir(src):
+        return
+    args = ['-q', '--enable=information', '--inline-suppr', '--suppress=zerodiv', 'a.c', 'b.c']
+    ref = cases.analyse(src, args + ['-j1'])
+    for ex in ('thread', 'process'):
+        a = cases.analyse(src, args + ['-j2', '--executor=' + ex])
+        ctx.ev()
+        oa, ob = findings.diff(ref.findings, a.findings)
+        if oa or ob:
+            ctx.count('known_witnesses', 'replayed-and-failing')
+            ctx.violation('case:witness-double-cover:j1-vs-%s:unmatchedSuppression' % ex,
+                          '-j2 --executor=%s reports "Unmatched suppression: zerodiv" for a global suppression that -j1 '
+                          'counts as matched (the finding is also hidden by an inline suppression in the worker)' % ex,
+                          files={'project': '@' + src}, cmd='cd project && ' + a.res.cmdline())
+        else:
+            ctx.count('known_witnesses', 'no-longer-failing:double-cover-' + ex)
+
+
 def run(ctx):
+    replay_known(ctx)
+    ctx.cov['generator_exclusions'] = {'no-double-cover': 'a finding is never covered by both an inline and a command-line '
+                                                          'suppression [finding double-cover, shared with C24]'}
     ctx.rule = ('case = generated project (2-24 files, shared headers, seeded findings, inline + command-line '
                 'suppressions, optional build dir) analysed with -j1 and with -jN x {thread,process} x seeded '
                 'H2 schedules; non-trivial = reference has >=2 findings and >=2 distinct worker hand-out/'
